@@ -42,6 +42,7 @@ Definition OP_READ_BLOB : N := 12.
 Definition OP_READ_BY_GROUP : N := 16.
 Definition OP_WRITE : N := 18.
 Definition OP_WRITE_CMD : N := 82.
+Definition OP_SIGNED_WRITE_CMD : N := 210.
 Definition OP_PREPARE : N := 22.
 Definition OP_EXECUTE : N := 24.
 
@@ -438,12 +439,22 @@ Definition xfer (c : client) (s : server) (q : req) : option (client * server) :
     let '(s', r) := server_step s q in Some (deliver c r, s')
   else None.
 
+(** an Error Response whose request opcode is a command: commands are never answered, so no
+    procedure waits for it (repaired [wait_for_message] drops it) *)
+Definition is_cmd_err (m : rsp) : bool :=
+  match m with
+  | RErr rq _ _ => N.eqb rq OP_WRITE_CMD || N.eqb rq OP_SIGNED_WRITE_CMD
+  | _ => false
+  end.
+
 (** [wait_for_message]: first queued message of the expected class or an error response;
-    the others are dropped; empty queue = GattTimeoutException *)
+    the others, and the errors sent for a command, are dropped; empty queue =
+    GattTimeoutException *)
 Fixpoint wait_in (accept : rsp -> bool) (q : list rsp) : option rsp * list rsp :=
   match q with
   | [] => (None, [])
-  | m :: r => if accept m then (Some m, r) else wait_in accept r
+  | m :: r => if is_cmd_err m then wait_in accept r
+              else if accept m then (Some m, r) else wait_in accept r
   end.
 Definition wait (accept : rsp -> bool) (c : client) : option rsp * client :=
   let '(m, q) := wait_in accept (c_q c) in (m, set_q c q).
